@@ -880,6 +880,20 @@ def schema_doc(g, prefix=None) -> dict:
     return {"$schema": "http://json-schema.org/draft-07/schema#", "definitions": defs}
 
 
+def all_members(by_id, n) -> list[int]:
+    """members of a node and of all its (transitive) base classes, without repetition"""
+    out, seen, todo = [], set(), [n["id"]]
+    while todo:
+        i = todo.pop()
+        if i in seen or i not in by_id:
+            continue
+        seen.add(i)
+        if not by_id[i].get("root"):
+            out += [j for j in by_id[i]["members"] if j not in out]
+        todo += by_id[i]["bases"]
+    return out
+
+
 def top_level(code: str):
     """what the module binds at top level, in order: ("class", name, [bases]) and ("alias", name, target name or None);
     and the names that get a forward-reference resolution call, in order"""
@@ -1071,6 +1085,23 @@ def _use_module(ck, camp, g, kind, opts, inp, cls, res, names, pos, by_id, foote
                 f"import of the emitted module fails: {type(ex).__name__}: {str(ex)[:200]}")
         return None
     try:
+        if kind == "pydantic_v2.BaseModel":
+            # right after import, before anything is used: a class that pydantic could not build completely
+            # and whose own or INHERITED annotations name a class defined further down needed a resolution call
+            # that was not emitted. pydantic v2 repairs this lazily on first use, which would hide it below.
+            for n in g:
+                c = getattr(mod, f"M{n['id']}", None) if f"M{n['id']}" in pos else None
+                if c is None or getattr(c, "__pydantic_complete__", True) is not False:
+                    continue
+                # a class is also left incomplete when a member type is a class that was itself incomplete when this
+                # one was created (pydantic's own transitivity; no name of this class is a forward reference, no call
+                # of the generator is missing): only a class with a forward reference of its own or inherited counts
+                late = sorted(f"M{j}" for j in all_members(by_id, n) if pos.get(f"M{j}", -1) > pos[f"M{n['id']}"])
+                if late:
+                    ck.fail({**cls, "mechanism": "incomplete_after_import", "inherited_only": not any(pos.get(f"M{j}", -1) > pos[f"M{n['id']}"] for j in n["members"])}, inp,
+                            f"M{n['id']} is not completely built right after import (own or inherited members of types {late} defined further down) "
+                            f"and there is no M{n['id']}.model_rebuild(); calls emitted for {footer}; order {names}")
+                    return None
         for n in g:
             if f"M{n['id']}" not in pos:
                 continue
@@ -1078,7 +1109,8 @@ def _use_module(ck, camp, g, kind, opts, inp, cls, res, names, pos, by_id, foote
             if n.get("root"):
                 sample = []
             else:
-                sample = {f"r{j}": ([] if by_id[j].get("root") else {}) for j in set(n["members"]) if j in by_id}
+                # own AND inherited members: a subclass must be usable through the fields it inherits too
+                sample = {f"r{j}": ([] if by_id[j].get("root") else {}) for j in all_members(by_id, n) if j in by_id}
             try:
                 # every model must be usable as emitted: members that refer to other models are exercised
                 if kind == "pydantic_v2.BaseModel":
@@ -1321,6 +1353,53 @@ def campaign_e2e_deep(ck: Check, n_cases: int) -> None:
     camp.wall_s = time.time() - t0
 
 
+def cycle_chain_graph(depth: int, closes_at: int, how: str, rooted: bool):
+    """A reference cycle that passes through an inheritance chain, in dependency order:
+    Top{leaf: Leaf};  C1(Top), C2(C1), …, C<depth>(C<depth-1>);  Leaf closes the cycle at C<closes_at>, either as its
+    subclass (`how` = "sub") or by a member of that type ("member"). Top can only be written before Leaf, so Top gets its
+    resolution call in the cycle fall-back of sort_data_models and EVERY C_k inherits the forward reference `leaf: Leaf`
+    (each needs a call of its own; the classes below C<closes_at> hang on the cycle without being part of it).
+    `rooted`: Top itself derives from a plain model outside the cycle.
+    ids: Top 0, C_k k, Leaf depth+1, the plain root depth+2."""
+    leaf = depth + 1
+    g = [node(0, (depth + 2,) if rooted else (), (leaf,))]
+    g += [node(k, (k - 1,), ()) for k in range(1, depth + 1)]
+    g.append(node(leaf, (closes_at,), ()) if how == "sub" else node(leaf, (), (closes_at,)))
+    if rooted:
+        g.append(node(depth + 2))
+    return g
+
+
+def campaign_e2e_cycle_chain(ck: Check, all_orders: bool) -> None:
+    """reference cycles through inheritance chains: the forward reference of the top model is inherited at every level"""
+    camp = ck.campaign("e2e reference cycle through an inheritance chain of depth 1..3 below a model flagged in the cycle fall-back "
+                       "x where the cycle closes x input orders x kinds: every subclass usable through the inherited member; footer vs Model.Sort.emitFooter")
+    at(ck, camp)
+    t0 = time.time()
+    rng = ck.rng.fork("e2e-cycle-chain")
+    obs = []
+    for depth in (1, 2, 3):
+        for closes_at in range(1, depth + 1):
+            for how in ("sub", "member"):
+                for rooted in (False, True) if (all_orders or how == "sub") else (False,):
+                    g0 = cycle_chain_graph(depth, closes_at, how, rooted)
+                    camp.hit(f"depth={depth}")
+                    camp.hit("closes at the lowest class" if closes_at == depth else "closes at a middle class")
+                    camp.hit("closed by " + ("a subclass" if how == "sub" else "a member"))
+                    if all_orders and len(g0) <= 5:
+                        orders = [list(o) for o in itertools.permutations(g0)]
+                    else:
+                        orders = [list(g0), list(reversed(g0)), g0[1:] + g0[:1], g0[-1:] + g0[:-1]] + [rng.shuffle(list(g0)) for _ in range(6 if all_orders else 2)]
+                    for k, g in enumerate(orders):
+                        g = [dict(n) for n in g]
+                        for kind in E2E_KINDS[:2] if (all_orders or k % 2 == 0) else [E2E_KINDS[k // 2 % 2]]:
+                            obs.append((g, kind, {}, e2e_case(ck, camp, g, kind, {})))
+                        if k < 2:  # dataclass output: ordering only (annotations stay strings)
+                            e2e_case(ck, camp, g, "dataclasses.dataclass", {})
+    predict_footers(ck, camp, obs)
+    camp.wall_s = time.time() - t0
+
+
 def campaign_e2e_keep_order(ck: Check, n_cases: int) -> None:
     """--keep-model-order: inheritance forests whose class names sort in every relation to the inheritance direction"""
     camp = ck.campaign("e2e --keep-model-order: inheritance chains/forests x every assignment of names (reverse-alphabetical chains included)")
@@ -1424,6 +1503,36 @@ MODULAR_CORPUS = [
 
 
 # ---------------------------------------------------------------------------------------------
+def search_update_action(ck: Check) -> None:
+    """the function-level correspondence broke on the update-action list (same order of models, other list of models that get a
+    forward-reference resolution call): embed each such graph into a document (allOf/$ref for bases, $ref properties for
+    members; dangling references and self-bases dropped), in the disagreeing input order and its reverse, and apply the
+    property's own oracle to the module the real generate() writes for pydantic v2 / v1-style output"""
+    camp = ck.campaign("search: graphs on which the update-action list differs, embedded into documents (pydantic v2, v1-style)")
+    at(ck, camp)
+    seen, tried = set(), 0
+    for d in ck.disagreements:
+        inp, m, r = d.input, d.model, d.impl
+        if not (isinstance(inp, dict) and "graph" in inp and isinstance(m, (tuple, list)) and isinstance(r, (tuple, list)) and len(m) == 4 and len(r) == 4):
+            continue
+        if not (m[0] == r[0] == "ok" and list(m[2]) == list(r[2]) and list(m[3]) != list(r[3])):
+            continue
+        g = clean([dict(n, bases=[b for b in n["bases"] if b < EXT], members=[x for x in n["members"] if x < EXT]) for n in inp["graph"]])
+        if len({n["id"] for n in g}) != len(g) or len(g) > 12 or base_cycle(g):
+            continue
+        for order in (g, list(reversed(g))):
+            if graph_key(order) in seen:
+                continue
+            seen.add(graph_key(order))
+            for kind in E2E_KINDS[:2]:
+                e2e_case(ck, camp, [dict(n) for n in order], kind, {})
+                if ck.failures:
+                    return
+        tried += 1
+        if tried >= 60:
+            return
+
+
 def search_e2e(ck: Check) -> None:
     """a theorem or the correspondence broke: look for an input on which the property's oracle fails"""
     camp = ck.campaign("search: disagreeing graphs and all small graphs end-to-end")
@@ -1536,6 +1645,7 @@ def run(ck: Check) -> None:
     guarded(ck, campaign_sort, 500 if quick else 5000, 3 if quick else 4)
     guarded(ck, campaign_stack, 120 if quick else 600, not quick)
     guarded(ck, campaign_bubble, 4 if quick else 5)
+    guarded(ck, campaign_e2e_cycle_chain, not quick)
     guarded(ck, campaign_e2e_keep_order, 60 if quick else 500)  # before the function-level campaign: a failing DOCUMENT becomes the replay
     guarded(ck, c11_dups.campaign_dups, 240 if quick else 2400)
     guarded(ck, campaign_sort_models, 600 if quick else 6000)
@@ -1546,6 +1656,7 @@ def run(ck: Check) -> None:
     guarded(ck, campaign_e2e_post, 120 if quick else 900)
     guarded(ck, campaign_e2e_deep, 10 if quick else 60)
     guarded(ck, campaign_e2e_modular, 80 if quick else 400)
+    ck.search_hooks.append(search_update_action)
     ck.search_hooks.append(c11_dups.search_dups)
     ck.search_hooks.append(search_e2e)
     known_findings(ck)
